@@ -67,6 +67,8 @@ type CaseA struct {
 	Name  string            `json:"name,omitempty"`  // map data only: the key's name when it is not "kv" (names of default template functions)
 	Site  string            `json:"site,omitempty"`  // where the key is read: "" the page (no layouts) | chain-page | chain-mid | chain-outer: the page, the middle or the outer layout of the chain page.vuego -> layouts/post.vuego -> layouts/base.vuego (Have may then contain "lmid" / "louter": the key in the front-matter of the middle / outer layout)
 	Read  string            `json:"read,omitempty"`  // the name the template / Get reads when it is not the key: a CASE VARIANT of the key or of the struct's Go field name, which no source defines
+	Loop  bool              `json:"loop,omitempty"`  // the read markup sits inside a v-for instance (<section v-for="zi in zloop">, zloop = [1] given through Assign)
+	After string            `json:"after,omitempty"` // after-failure: a failing, colliding render runs first: pool (on a fresh engine) | engine (on a sibling template of the same engine) | template (inline, on the very template object)
 	Pad   int               `json:"pad,omitempty"`   // the page's front-matter also has a neighbour key whose value is a single line of this many characters
 	Bad   []string          `json:"bad,omitempty"`   // config files that do not decode into a mapping, see badFiles; each must be skipped alone
 	Store string            `json:"store,omitempty"` // how the files are stored: "" one filesystem | an OverlayFS layout, see stores
@@ -541,6 +543,9 @@ func (c CaseA) body() string {
 	wsrc, wv, any := c.winner()
 	var b strings.Builder
 	b.WriteString("<div>\n")
+	if c.Loop {
+		b.WriteString(`<section v-for="zi in zloop">`)
+	}
 	srcs := append([]string(nil), c.Have...)
 	sort.Strings(srcs)
 	switch {
@@ -621,8 +626,54 @@ func (c CaseA) body() string {
 			fmt.Fprintf(&b, `<p data-m="v" :data-x="%s">x</p>`, k)
 		}
 	}
+	if c.Loop {
+		b.WriteString(`</section>`)
+	}
 	b.WriteString("\n</div>\n")
 	return b.String()
+}
+
+// failingSrc is the inline template of the after-failure dimension: it binds the name the case
+// reads at its top level and as a loop variable to STALE values, prints literal text and a good
+// mustache first, and fails late (an unknown filter, or a missing include).
+func (c CaseA) failingSrc(variant int) string {
+	k := c.read()
+	late := "{{ " + k + " | nosuchfilter }}"
+	if variant%2 == 1 {
+		late = `<template include="zmissing.vuego"></template>`
+	}
+	return `<template ` + k + `="STALE-top" :zq="'STALE-q'"><ul><li v-for="` + k + ` in zdrafts">lit {{ ` + k + ` }} ` + late + `</li></ul></template>`
+}
+
+// failFirst runs the failing render of the after-failure dimension.
+func (c CaseA) failFirst(base, tpl vuego.Template, rep int) error {
+	drafts := []string{"STALE-a", "STALE-b"}
+	var on vuego.Template
+	switch c.After {
+	case "pool":
+		on = vuego.New().Fill(map[string]any{"zdrafts": drafts})
+	case "engine":
+		on = base.New().Assign("zdrafts", drafts)
+	case "template":
+		on = tpl // zdrafts was assigned to it with the other auxiliary variables
+	default:
+		return fmt.Errorf("malformed case: after %q", c.After)
+	}
+	var sink bytes.Buffer
+	src := c.failingSrc(rep)
+	var err error
+	switch rep % 3 {
+	case 0:
+		err = on.RenderString(context.Background(), &sink, src)
+	case 1:
+		err = on.RenderByte(context.Background(), &sink, []byte(src))
+	default:
+		err = on.RenderReader(context.Background(), &sink, strings.NewReader(src))
+	}
+	if err == nil {
+		return fmt.Errorf("after-failure: the colliding inline template was expected to fail (unknown filter / missing include), it rendered %q", sink.String())
+	}
+	return nil
 }
 
 // files builds the template filesystem of the case.
@@ -768,6 +819,11 @@ func checkA(c CaseA) error {
 	case c.Decoy:
 		tpl = tpl.Assign("zother", "decoyassign")
 	}
+	if c.Loop || c.After != "" {
+		// auxiliary variables of the harness (unrelated names): the one-item list the read markup
+		// loops over, and the list the failing template loops over
+		tpl = tpl.Assign("zloop", []int{1}).Assign("zdrafts", []string{"STALE-a", "STALE-b"})
+	}
 	desc := fmt.Sprintf("key %q, sources %v (%s data addressed by %s), expected winner %q", k, c.Have, c.Fill, c.Addr, wsrc)
 	if c.Read != "" {
 		desc = fmt.Sprintf("reading %q, a name no source defines (the sources %v define %v exactly; %s data), expected: undefined", c.Read, c.Have, c.definedNames(), c.Fill)
@@ -775,6 +831,9 @@ func checkA(c CaseA) error {
 
 	// every recognisable value that must NOT be seen: the values of the losing sources
 	losers := func(got string) error {
+		if strings.Contains(got, "STALE") {
+			return fmt.Errorf("%s: saw %q: a value that only a FAILED earlier render bound", desc, got[:min(len(got), 300)])
+		}
 		if strings.Contains(got, "zpad") || strings.Contains(got, "pppppppp") {
 			return fmt.Errorf("%s: the front-matter block itself shows up in %q", desc, got[:min(len(got), 200)])
 		}
@@ -806,199 +865,217 @@ func checkA(c CaseA) error {
 		return nil
 	}
 
-	if c.Pos == "get" {
-		got := tpl.Get(c.read())
-		if err := losers(got); err != nil {
-			return fmt.Errorf("Get: %w", err)
-		}
-		if !any {
-			return nil // undefined everywhere: the result of Get is not specified beyond "nothing leaks"
-		}
-		if (c.composite() && isZero(wv)) || isNull(wv) {
-			return nil // string form of a nil list / map / null: unspecified; nothing of a loser was seen
-		}
-		if c.composite() {
-			// the string form of a list / map is not specified: the winner's items must be mentioned
-			for _, tok := range tokens(wv) {
-				if !strings.Contains(got, tok) {
-					return fmt.Errorf("Get: %s: got %q, want it to mention %v", desc, got, tokens(wv))
+	// verify makes the one observation of the case (Get or a render) and compares it with the model
+	verify := func() error {
+		if c.Pos == "get" {
+			got := tpl.Get(c.read())
+			if err := losers(got); err != nil {
+				return fmt.Errorf("Get: %w", err)
+			}
+			if !any {
+				return nil // undefined everywhere: the result of Get is not specified beyond "nothing leaks"
+			}
+			if (c.composite() && isZero(wv)) || isNull(wv) {
+				return nil // string form of a nil list / map / null: unspecified; nothing of a loser was seen
+			}
+			if c.composite() {
+				// the string form of a list / map is not specified: the winner's items must be mentioned
+				for _, tok := range tokens(wv) {
+					if !strings.Contains(got, tok) {
+						return fmt.Errorf("Get: %s: got %q, want it to mention %v", desc, got, tokens(wv))
+					}
 				}
+				return nil
+			}
+			if got != wv.S {
+				return fmt.Errorf("Get: %s: got %q, want %q", desc, got, wv.S)
 			}
 			return nil
 		}
-		if got != wv.S {
-			return fmt.Errorf("Get: %s: got %q, want %q", desc, got, wv.S)
-		}
-		return nil
-	}
 
-	var out bytes.Buffer
-	if err := tpl.Render(context.Background(), &out); err != nil {
+		var out bytes.Buffer
+		if err := tpl.Render(context.Background(), &out); err != nil {
+			if !any {
+				return nil // an undefined variable in an expression: unspecified
+			}
+			return fmt.Errorf("render (%s): %s: error %v", c.Pos, desc, err)
+		}
+		if err := losers(out.String()); err != nil {
+			return fmt.Errorf("render (%s): %w; output %q", c.Pos, err, out.String())
+		}
+		nodes, err := hx.Frag(out.String(), hx.Collapse)
+		if err != nil {
+			return fmt.Errorf("output does not parse: %v", err)
+		}
+		byID := map[string][]hx.Marker{}
+		var hits []string
+		for _, m := range hx.Markers(nodes) {
+			byID[m.ID] = append(byID[m.ID], m)
+			if strings.HasPrefix(m.ID, "is-") {
+				hits = append(hits, m.ID)
+			}
+		}
+		one := func(id string) (hx.Marker, error) {
+			ms := byID[id]
+			if len(ms) != 1 {
+				return hx.Marker{}, fmt.Errorf("render (%s): %s: element %q appears %d times in %q", c.Pos, desc, id, len(ms), out.String())
+			}
+			return ms[0], nil
+		}
+		wantText := func(id, want string) error {
+			m, err := one(id)
+			if err != nil {
+				return err
+			}
+			if m.Text != want {
+				return fmt.Errorf("render (%s): %s: element %q shows %q, want %q", c.Pos, desc, id, m.Text, want)
+			}
+			return nil
+		}
+		wantAttr := func(id, want string) error {
+			m, err := one(id)
+			if err != nil {
+				return err
+			}
+			if got, has := m.Attrs["data-x"]; !has || got != want {
+				return fmt.Errorf("render (%s): %s: bound attribute is %q (present=%v), want %q", c.Pos, desc, got, has, want)
+			}
+			return nil
+		}
+		wantHit := func(want string) error {
+			if len(hits) != 1 || hits[0] != want {
+				return fmt.Errorf("render (vif): %s: comparisons that held: %v, want [%s]", desc, hits, want)
+			}
+			return nil
+		}
 		if !any {
-			return nil // an undefined variable in an expression: unspecified
+			// no source defines the key: only "nothing leaks" (checked above) and no comparison holds
+			if len(hits) > 0 {
+				return fmt.Errorf("render (vif): %s: %v held although no source defines the key", desc, hits)
+			}
+			return nil
 		}
-		return fmt.Errorf("render (%s): %s: error %v", c.Pos, desc, err)
-	}
-	if err := losers(out.String()); err != nil {
-		return fmt.Errorf("render (%s): %w; output %q", c.Pos, err, out.String())
-	}
-	nodes, err := hx.Frag(out.String(), hx.Collapse)
-	if err != nil {
-		return fmt.Errorf("output does not parse: %v", err)
-	}
-	byID := map[string][]hx.Marker{}
-	var hits []string
-	for _, m := range hx.Markers(nodes) {
-		byID[m.ID] = append(byID[m.ID], m)
-		if strings.HasPrefix(m.ID, "is-") {
-			hits = append(hits, m.ID)
-		}
-	}
-	one := func(id string) (hx.Marker, error) {
-		ms := byID[id]
-		if len(ms) != 1 {
-			return hx.Marker{}, fmt.Errorf("render (%s): %s: element %q appears %d times in %q", c.Pos, desc, id, len(ms), out.String())
-		}
-		return ms[0], nil
-	}
-	wantText := func(id, want string) error {
-		m, err := one(id)
-		if err != nil {
-			return err
-		}
-		if m.Text != want {
-			return fmt.Errorf("render (%s): %s: element %q shows %q, want %q", c.Pos, desc, id, m.Text, want)
-		}
-		return nil
-	}
-	wantAttr := func(id, want string) error {
-		m, err := one(id)
-		if err != nil {
-			return err
-		}
-		if got, has := m.Attrs["data-x"]; !has || got != want {
-			return fmt.Errorf("render (%s): %s: bound attribute is %q (present=%v), want %q", c.Pos, desc, got, has, want)
-		}
-		return nil
-	}
-	wantHit := func(want string) error {
-		if len(hits) != 1 || hits[0] != want {
-			return fmt.Errorf("render (vif): %s: comparisons that held: %v, want [%s]", desc, hits, want)
-		}
-		return nil
-	}
-	if !any {
-		// no source defines the key: only "nothing leaks" (checked above) and no comparison holds
-		if len(hits) > 0 {
-			return fmt.Errorf("render (vif): %s: %v held although no source defines the key", desc, hits)
-		}
-		return nil
-	}
 
-	if isNull(wv) {
-		// nothing of a lower source was seen (scan above); in expression positions the variable is
-		// the same null: no comparison holds, it is falsy (docs/syntax.md: nil is falsey), == nil
-		if len(hits) > 0 {
-			return fmt.Errorf("render (vif): %s: %v held although the chosen value is null", desc, hits)
+		if isNull(wv) {
+			// nothing of a lower source was seen (scan above); in expression positions the variable is
+			// the same null: no comparison holds, it is falsy (docs/syntax.md: nil is falsey), == nil
+			if len(hits) > 0 {
+				return fmt.Errorf("render (vif): %s: %v held although the chosen value is null", desc, hits)
+			}
+			if _, sawT := byID["truthy"]; sawT {
+				return fmt.Errorf("render (vif): %s: v-if=%q rendered although the chosen value is null ({{ %s }} and Get show null)", desc, k, k)
+			}
+			if c.Pos == "expr" {
+				return wantText("n", "null")
+			}
+			return nil
 		}
-		if _, sawT := byID["truthy"]; sawT {
-			return fmt.Errorf("render (vif): %s: v-if=%q rendered although the chosen value is null ({{ %s }} and Get show null)", desc, k, k)
+		if c.composite() && isZero(wv) {
+			// the chosen value is a nil list / map: nothing of a lower source was seen (scan above) and
+			// no comparison with a lower source's element holds
+			if len(hits) > 0 {
+				return fmt.Errorf("render (vif): %s: %v held although the chosen value is nil", desc, hits)
+			}
+			return nil
 		}
-		if c.Pos == "expr" {
-			return wantText("n", "null")
+		if c.composite() {
+			pv := c.probeValues(wsrc)
+			switch c.Pos {
+			case "interp":
+				if err := wantText("v0", pv[0]); err != nil {
+					return err
+				}
+				if err := wantText("v1", pv[1]); err != nil {
+					return err
+				}
+				if c.VType == "list" {
+					var got []string
+					for _, m := range byID["it"] {
+						got = append(got, m.Text)
+					}
+					if strings.Join(got, ",") != strings.Join(strsOf(wv), ",") {
+						return fmt.Errorf("render (interp): %s: v-for over the key printed %v, want %v", desc, got, strsOf(wv))
+					}
+				}
+				// map: the losing sources' private sub-keys are caught by the "losers" scan above
+			case "expr":
+				if err := wantText("v0", pv[0]); err != nil {
+					return err
+				}
+				if err := wantText("v1", pv[1]); err != nil {
+					return err
+				}
+				return wantText("w", "hit")
+			case "vif":
+				return wantHit("is-" + wsrc)
+			case "attr":
+				return wantAttr("v1", pv[1])
+			}
+			return nil
 		}
-		return nil
-	}
-	if c.composite() && isZero(wv) {
-		// the chosen value is a nil list / map: nothing of a lower source was seen (scan above) and
-		// no comparison with a lower source's element holds
-		if len(hits) > 0 {
-			return fmt.Errorf("render (vif): %s: %v held although the chosen value is nil", desc, hits)
-		}
-		return nil
-	}
-	if c.composite() {
-		pv := c.probeValues(wsrc)
+
+		want := wv.S
 		switch c.Pos {
 		case "interp":
-			if err := wantText("v0", pv[0]); err != nil {
-				return err
-			}
-			if err := wantText("v1", pv[1]); err != nil {
-				return err
-			}
-			if c.VType == "list" {
-				var got []string
-				for _, m := range byID["it"] {
-					got = append(got, m.Text)
-				}
-				if strings.Join(got, ",") != strings.Join(strsOf(wv), ",") {
-					return fmt.Errorf("render (interp): %s: v-for over the key printed %v, want %v", desc, got, strsOf(wv))
-				}
-			}
-			// map: the losing sources' private sub-keys are caught by the "losers" scan above
+			return wantText("v", want)
 		case "expr":
-			if err := wantText("v0", pv[0]); err != nil {
-				return err
+			w := want
+			if c.VType == "bool" {
+				w = map[string]string{"true": "yes", "false": "no"}[want]
 			}
-			if err := wantText("v1", pv[1]); err != nil {
+			if err := wantText("v", w); err != nil {
 				return err
 			}
 			return wantText("w", "hit")
 		case "vif":
-			return wantHit("is-" + wsrc)
+			h := "is-" + wsrc
+			if c.VType == "bool" {
+				h = "is-" + want
+			}
+			if err := wantHit(h); err != nil {
+				return err
+			}
+			// truthiness of the chosen value (docs/syntax.md: 0, false, "", nil are falsey; every value
+			// used here except bool false is non-zero / non-empty)
+			truthy := !isZero(wv)
+			_, sawT := byID["truthy"]
+			_, sawF := byID["falsy"]
+			if sawT != truthy {
+				return fmt.Errorf("render (vif): %s: v-if=%q rendered=%v, but the chosen value is %s", desc, k, sawT, want)
+			}
+			// the negation of a non-boolean is left unasserted (only `!flag` on booleans is documented)
+			if c.VType == "bool" && sawF == truthy {
+				return fmt.Errorf("render (vif): %s: v-if=%q rendered=%v, but the chosen value is %s", desc, "!"+k, sawF, want)
+			}
 		case "attr":
-			return wantAttr("v1", pv[1])
+			if isZero(wv) {
+				// whether a falsy binding (false, 0, "") is dropped or printed is not specified
+				m, err := one("v")
+				if err != nil {
+					return err
+				}
+				if got, has := m.Attrs["data-x"]; has && got != want {
+					return fmt.Errorf("render (attr): %s: bound attribute is %q for the value %q", desc, got, want)
+				}
+				return nil
+			}
+			return wantAttr("v", want)
 		}
 		return nil
 	}
-
-	want := wv.S
-	switch c.Pos {
-	case "interp":
-		return wantText("v", want)
-	case "expr":
-		w := want
-		if c.VType == "bool" {
-			w = map[string]string{"true": "yes", "false": "no"}[want]
-		}
-		if err := wantText("v", w); err != nil {
+	if c.After == "" {
+		return verify()
+	}
+	// after-failure: a FAILING render that collides with the case (same variable name bound to
+	// STALE values at its top level and as a loop variable, failing late) runs first; the case
+	// must then meet the model as usual. Repeated, back to back on this goroutine (sync.Pool).
+	for rep := 0; rep < 3; rep++ {
+		if err := c.failFirst(base, tpl, rep); err != nil {
 			return err
 		}
-		return wantText("w", "hit")
-	case "vif":
-		h := "is-" + wsrc
-		if c.VType == "bool" {
-			h = "is-" + want
+		if err := verify(); err != nil {
+			return fmt.Errorf("after a failed render (%s, repetition %d): %w", c.After, rep, err)
 		}
-		if err := wantHit(h); err != nil {
-			return err
-		}
-		// truthiness of the chosen value (docs/syntax.md: 0, false, "", nil are falsey; every value
-		// used here except bool false is non-zero / non-empty)
-		truthy := !isZero(wv)
-		_, sawT := byID["truthy"]
-		_, sawF := byID["falsy"]
-		if sawT != truthy {
-			return fmt.Errorf("render (vif): %s: v-if=%q rendered=%v, but the chosen value is %s", desc, k, sawT, want)
-		}
-		// the negation of a non-boolean is left unasserted (only `!flag` on booleans is documented)
-		if c.VType == "bool" && sawF == truthy {
-			return fmt.Errorf("render (vif): %s: v-if=%q rendered=%v, but the chosen value is %s", desc, "!"+k, sawF, want)
-		}
-	case "attr":
-		if isZero(wv) {
-			// whether a falsy binding (false, 0, "") is dropped or printed is not specified
-			m, err := one("v")
-			if err != nil {
-				return err
-			}
-			if got, has := m.Attrs["data-x"]; has && got != want {
-				return fmt.Errorf("render (attr): %s: bound attribute is %q for the value %q", desc, got, want)
-			}
-			return nil
-		}
-		return wantAttr("v", want)
 	}
 	return nil
 }
@@ -1031,6 +1108,30 @@ func enumA(f func(c CaseA, excluded string) bool) {
 		for i, s := range order {
 			if mask&(1<<i) != 0 {
 				have = append(have, s)
+			}
+		}
+		// read positions inside a v-for instance, alone and after a failed colliding render
+		{
+			vs := map[string]vals.V{}
+			for _, s := range have {
+				vs[s] = canon("string", s, 0)
+			}
+			for _, after := range []string{"", "pool", "engine", "template"} {
+				for _, pos := range positions {
+					if len(have) == 0 && pos == "expr" {
+						continue
+					}
+					if pos == "get" && after != "template" {
+						continue // Get is outside any loop; it matters after a failure on the template itself
+					}
+					if after != "" && !run.Thorough() && (mask+len(after))%2 == 1 {
+						continue // quick: a rotating half of the patterns per variant
+					}
+					c := CaseA{Have: have, Vals: vs, VType: "string", Ctor: "newfs", Fill: "map", Addr: "key", Pos: pos, Loop: pos != "get", After: after}
+					if !f(c, excludedA(known, c)) {
+						return
+					}
+				}
 			}
 		}
 		// other carrier shapes: typed maps, promoted fields of embedded structs
@@ -1332,6 +1433,12 @@ func classifyA(c CaseA) (bool, []string) {
 	}
 	if c.Name != "" {
 		cls = append(cls, "key-named-like-a-template-function")
+	}
+	if c.Loop {
+		cls = append(cls, "read-inside-a-v-for-instance")
+	}
+	if c.After != "" {
+		cls = append(cls, "after-failure="+c.After)
 	}
 	if c.Pad > 0 {
 		cls = append(cls, fmt.Sprintf("front-matter-neighbour-line-of-%d-chars", c.Pad))
